@@ -140,6 +140,8 @@ def histories(seed=0):
     for k in range(10):
         h += [(1, 255, f) for f in frames_of(pay(9 + k, k), k % 8, 0xFF)]
     out.append(('consecutive messages, counter wraps', h))
+    # the same sequence counter again after a delivered message (one encoder counter shared by many PGNs wraps every 8 messages)
+    out.append(('same counter after delivery', [(1, 255, f) for f in frames_of(A, 5, 0xFF)] + [(1, 255, f) for f in frames_of(B, 5, 0xFF)]))
     # truncated frames then a good message
     out.append(('short frames', [(1, 255, bytes([0x20, 0x09])), (1, 255, bytes([0x21])), (1, 255, bytes([0x22])), (1, 255, b'')] + [(1, 255, f) for f in frames_of(C, 2, 0xFF)]))
     return out
